@@ -800,6 +800,12 @@ class ModulePrinter(ExpressionPrinter):
     # endregion
 
     def visit_Module(self, node):
+        for statement in node.body:
+            # A unicode_literals future import also applies to the literals before it
+            if isinstance(statement, ast.ImportFrom) and statement.module == '__future__':
+                if any(alias.name == 'unicode_literals' for alias in statement.names):
+                    self.printer.unicode_literals = True
+
         if hasattr(node, 'docstring') and node.docstring is not None:
             # Python 3.6 added a docstring field! Really useful for every use case except this one...
             # Put the docstring back into the body
